@@ -394,6 +394,45 @@ func buildSigned(r *core.Rand, kind string, ht txscript.SigHashType, nIn, nOut, 
 		cbBytes, err := cb.ToBytes()
 		must(err)
 		tx.TxIn[idx].Witness = wire.TxWitness{sig, leafScript, cbBytes}
+	case "p2tr-script-codesep":
+		// leaf <pk1> CHECKSIGVERIFY CODESEPARATOR <pk2> CHECKSIG: the digests come from the exported
+		// CalcTapscriptSignaturehash (blank position for pk1, WithBaseTapscriptVersion(2, leaf) for
+		// pk2, the opcode position of the separator), signed with schnorr.Sign
+		res.form = "tap"
+		internal, k1, k2 := newKey(r), newKey(r), newKey(r)
+		leafScript, _ := txscript.NewScriptBuilder().AddData(schnorr.SerializePubKey(k1.pub)).
+			AddOp(txscript.OP_CHECKSIGVERIFY).AddOp(txscript.OP_CODESEPARATOR).
+			AddData(schnorr.SerializePubKey(k2.pub)).AddOp(txscript.OP_CHECKSIG).Script()
+		leaf := txscript.NewBaseTapLeaf(leafScript)
+		tree := txscript.AssembleTaprootScriptTree(leaf)
+		root := tree.RootNode.TapHash()
+		pkScript, err := txscript.PayToTaprootScript(txscript.ComputeTaprootOutputKey(internal.pub, root[:]))
+		must(err)
+		spent[idx].PkScript = pkScript
+		fetcher := mkFetcher(tx, spent)
+		sh := txscript.NewTxSigHashes(tx, fetcher)
+		lh := leaf.TapHash()
+		d1, err := txscript.CalcTapscriptSignaturehash(sh, ht, tx, idx, fetcher, leaf)
+		if err != nil {
+			res.err = true
+			return res
+		}
+		d2, err := txscript.CalcTapscriptSignaturehash(sh, ht, tx, idx, fetcher, leaf,
+			txscript.WithBaseTapscriptVersion(2, lh[:]))
+		must(err)
+		mk := func(d []byte, k keyT) []byte {
+			sg, err := schnorr.Sign(k.priv, d)
+			must(err)
+			b := sg.Serialize()
+			if ht != txscript.SigHashDefault {
+				b = append(b, byte(ht))
+			}
+			return b
+		}
+		cb := tree.LeafMerkleProofs[0].ToControlBlock(internal.pub)
+		cbBytes, err := cb.ToBytes()
+		must(err)
+		tx.TxIn[idx].Witness = wire.TxWitness{mk(d2, k2), mk(d1, k1), leafScript, cbBytes}
 	default:
 		panic("kind " + kind)
 	}
@@ -519,13 +558,13 @@ func mutate(r *core.Rand, kind string, tx *wire.MsgTx, spent []*wire.TxOut, idx 
 }
 
 var signKinds = []string{"p2pk", "p2pkh", "p2pkh-u", "multisig", "p2sh-p2pkh", "p2sh-multisig", "legacy-codesep",
-	"multisig-merge", "p2sh-multisig-merge", "p2sh-p2wpkh", "p2tr-key-tree",
+	"multisig-merge", "p2sh-multisig-merge", "p2sh-p2wpkh", "p2tr-key-tree", "p2tr-script-codesep",
 	"p2wpkh", "p2wsh", "p2wsh-codesep", "p2wsh-multisig", "p2tr-key", "p2tr-script"}
 
 func genSign(g *core.Gen) {
 	r := g.R
 	definedHT := []txscript.SigHashType{1, 2, 3, 0x81, 0x82, 0x83}
-	for k := 0; k < g.N(442, 4420); k++ {
+	for k := 0; k < g.N(468, 4680); k++ {
 		kind := signKinds[k%len(signKinds)]
 		nIn, nOut := 1+r.Intn(3), r.Intn(4)
 		idx := r.Intn(nIn)
